@@ -28,6 +28,18 @@ CHECKS = {
    note="Sequentially consistent interleavings at hook-point granularity (payload memcpy is one step on the real code); weaker-than-TSO reorderings are not executable here, only the requested release/acquire orders are bound; real-ring schedules are sampled, the exhaustive part is the small-ring model.",
    technique="TLA+ model checking (TLC, all interleavings of a word-level model) + deterministic schedule control of the real threads via hook points + TLC trace validation of every step",
    design_ref="DESIGN.md section 4, C01"),
+ "C02": dict(
+   text="spec/IpcMsg.tla models one IPC connection (shm or socket transport): request / response / event channels as FIFO sequences of "
+        "<<id,len,hash>> with ghost accept/deliver histories, notification bytes in flight in both directions, deferred notifications, flow control "
+        "and rate limit. TLC checks exhaustively for bounded constants: FIFO / exactly-once / intact on all three channels, a call that returns an "
+        "error changes no channel, nothing over the negotiated maximum is accepted, notification counting, and 'events queued => client descriptor "
+        "readable'. Binding: a real qb_ipcs service and a real qb_ipcc client in ONE thread (the harness owns the poll-handler table and decides "
+        "when each dispatch runs; zero timeouts), driven by TLC-exhaustive short histories, TLC random walks, 60 directed scenarios (bursts past the "
+        "ring / socket / datagram limits, deferred notifications, rate limit and flow control toggled mid-dispatch, sends from inside msg_process) and "
+        "seeded random programs; every call result, every msg_process argument and a 10-field state projection is validated by TLC at every step.",
+   note="Call-granularity interleavings in one thread (word-level interleavings are C01); zero timeouts; client buffers of the negotiated size; the refusal point of a send to a non-empty channel is left open; UBSan alignment check off for this harness; KF-C02-1 excluded by trigger with a directed reproducer.",
+   technique="TLA+ model checking (TLC) + model-generated and seeded histories executed on a single-thread stepped real client/server pair + TLC trace validation",
+   design_ref="DESIGN.md section 4, C02"),
  "C03": dict(
    category="fault_enumeration",
    text="spec/IpcCrash.tla states, as action guards, what may be observed around the death of an IPC peer (callback word accept, created?, msg*, "
